@@ -27,28 +27,97 @@ func saltClass(s []byte) string {
 	return "salt"
 }
 
+// guardedOut is the `out` argument of a DeriveKey call: n bytes pre-filled with 0xAA (an output that is
+// XOR-ed into, or only partly written, shows) inside a larger buffer whose 16 bytes on either side are
+// sentinels (cap(out) > len(out): a write past len(out) shows). nilOut: a nil slice instead.
+type guardedOut struct {
+	buf []byte
+	out []byte
+}
+
+func newGuardedOut(n int, nilOut bool) *guardedOut {
+	g := &guardedOut{}
+	if nilOut {
+		return g
+	}
+	g.buf = make([]byte, n+32)
+	for i := range g.buf {
+		g.buf[i] = 0xAA
+	}
+	for i := 0; i < 16; i++ {
+		g.buf[i], g.buf[16+n+i] = 0x5C, 0x5C
+	}
+	g.out = g.buf[16 : 16+n : len(g.buf)]
+	return g
+}
+
+// sentinelsIntact: the bytes around `out` are untouched.
+func (g *guardedOut) sentinelsIntact() bool {
+	if g.buf == nil {
+		return true
+	}
+	n := len(g.out)
+	for i := 0; i < 16; i++ {
+		if g.buf[i] != 0x5C || g.buf[16+n+i] != 0x5C {
+			return false
+		}
+	}
+	return true
+}
+
+// deriveRun is one DeriveKey call on a guarded, pre-filled `out`, with the caller's salt and raw key
+// bytes watched: purity is "" or the description of an argument the call modified.
+func deriveRun(ctx string, salt []byte, sk crypto.PrivKey, rawKey []byte, n int, nilOut bool) (impl, purity string) {
+	g := newGuardedOut(n, nilOut)
+	var saltArg []byte
+	if salt != nil {
+		saltArg = append(make([]byte, 0, len(salt)+8), salt...) // spare capacity: an append to the salt shows below
+	}
+	spare := saltArg[len(saltArg):cap(saltArg)]
+	impl = outcome(func() ([]byte, error) {
+		err := peer.DeriveKey(ctx, saltArg, sk, g.out)
+		return g.out, err
+	})
+	switch {
+	case !g.sentinelsIntact():
+		purity = fmt.Sprintf("DeriveKey writes outside out[0:%d]", n)
+	case lib.Hex(saltArg) != lib.Hex(salt):
+		purity = "DeriveKey modifies the caller's salt"
+	case lib.Hex(spare) != lib.Hex(make([]byte, len(spare))):
+		purity = "DeriveKey writes into the spare capacity of the caller's salt"
+	case rawKey != nil && sk != nil:
+		if raw, err := sk.Raw(); err == nil && lib.Hex(raw) != lib.Hex(rawKey) {
+			purity = "DeriveKey modifies the caller's private key"
+		}
+	}
+	return impl, purity
+}
+
 // deriveCase compares DeriveKey with the model skeleton run over the independent primitive
-// pipeline; returns the implementation's outcome.
+// pipeline; returns the implementation's outcome. The monitor is stated without the model: no
+// panic, determinism, no error for an honest key, and — for EVERY case — the output recomputed from
+// the documentation with the stdlib pipeline (specDerive), on an `out` pre-filled with 0xAA.
 func (e *engine) deriveCase(k *key, ctx string, salt []byte, n int, gen string) string {
 	op := fmt.Sprintf("encrypt.derive priv=%s ctx=%s salt=%s n=%d", lib.Hex(k.priv), lib.Hex([]byte(ctx)), lib.Hex(salt), n)
 	model, _ := e.oracleQuery(op)
-	run := func() string {
-		return outcome(func() ([]byte, error) {
-			out := make([]byte, n)
-			err := peer.DeriveKey(ctx, salt, k.sk, out)
-			return out, err
-		})
-	}
-	impl := run()
+	impl, purity := deriveRun(ctx, salt, k.sk, k.priv, n, false)
+	again, _ := deriveRun(ctx, salt, k.sk, k.priv, n, false)
 	mon := ""
 	switch {
 	case impl == "panic":
 		mon = "DeriveKey panics (" + gen + ")"
-	case impl != run():
+	case impl != again:
 		mon = "DeriveKey is not deterministic (" + gen + ")"
 	case impl == "err":
 		mon = "DeriveKey fails for an honest Ed25519 key (" + gen + ")"
+	case purity != "":
+		mon = purity + " (" + gen + ")"
+	default:
+		if want := specDerive(k, ctx, salt, n); want != nil && impl != "ok "+lib.Hex(want) {
+			mon = fmt.Sprintf("DeriveKey output (%d bytes, context of %d bytes, salt of %d bytes, out pre-filled with 0xAA) is not BLAKE3-derive-key(context, const ‖ salt ‖ material⊕context) (%s)", n, len(ctx), len(salt), gen)
+		}
 	}
+	e.rep.Branches["derive.spec"]++
 	cls := gen
 	if ctx == "" {
 		cls = "empty-context"
@@ -96,23 +165,20 @@ func (e *engine) keyArgs(k *key) []keyArg {
 func (e *engine) deriveArgCase(ka keyArg, ctx string, salt []byte, n int, nilOut bool, gen string) {
 	op := fmt.Sprintf("encrypt.deriveArg key=%s ctx=%s salt=%s n=%d", ka.model, lib.Hex([]byte(ctx)), lib.Hex(salt), n)
 	model, _ := e.oracleQuery(op)
-	run := func() string {
-		return outcome(func() ([]byte, error) {
-			var out []byte
-			if !nilOut {
-				out = make([]byte, n)
-			}
-			err := peer.DeriveKey(ctx, salt, ka.sk, out)
-			return out, err
-		})
+	var raw []byte
+	if ka.k != nil {
+		raw = ka.k.priv
 	}
-	impl := run()
+	impl, purity := deriveRun(ctx, salt, ka.sk, raw, n, nilOut)
+	again, _ := deriveRun(ctx, salt, ka.sk, raw, n, nilOut)
 	mon := ""
 	switch {
 	case impl == "panic":
 		mon = "DeriveKey panics (" + ka.class + " key, " + gen + ")"
-	case impl != run():
+	case impl != again:
 		mon = "DeriveKey is not deterministic (" + ka.class + " key, " + gen + ")"
+	case purity != "":
+		mon = purity + " (" + ka.class + " key, " + gen + ")"
 	case ka.k == nil && impl != "err":
 		mon = "DeriveKey does not report an error for a " + ka.class + " key"
 	case ka.k != nil && impl == "err":
@@ -190,7 +256,7 @@ func (e *engine) deriveEdCase(ka keyArg, ctx string, salt []byte, gen string) {
 }
 
 func (e *engine) runC13() {
-	e.rep.Rule = "DeriveKey / DeriveEd25519Key: keys x contexts (incl. empty, NUL, non-UTF-8, long) x salts (nil, empty, short, 1000 bytes) x output lengths 0..200; each output compared with the model skeleton over an independent stdlib pipeline (sha512 clamp, ed25519, edwards25519 BytesMontgomery, x/crypto X25519, zeebo/blake3); determinism; pairwise inequality matrix over all (key, context, salt) at 32 bytes; distinct = distinct op line"
+	e.rep.Rule = "DeriveKey / DeriveEd25519Key: keys x contexts (incl. empty, NUL, non-UTF-8, long) x salts (nil, empty, short, 1000 bytes) x output lengths 0..200; each output compared with the model skeleton over an independent stdlib pipeline (sha512 clamp, ed25519, edwards25519 BytesMontgomery, x/crypto X25519, zeebo/blake3); every DeriveKey call writes into an `out` pre-filled with 0xAA between sentinel bytes (cap > len) and EVERY output — matrix, length, random and normalisation classes included — is recomputed from the documentation with the stdlib pipeline; salt and key bytes unchanged by the call; determinism; pairwise inequality matrix over all (key, context, salt) at 32 bytes; distinct = distinct op line"
 	e.rep.Require("derive.ok", "matrix", "ed25519")
 	keys := []*key{e.newKey(), e.newKey(), e.newKey()}
 	salts := [][]byte{nil, {}, {0}, []byte("salt"), []byte("salt2"), e.rng.Bytes(32), e.rng.Bytes(1000)}
@@ -225,10 +291,7 @@ func (e *engine) runC13() {
 			impl := e.deriveCase(k, ctx, salt, n, "length")
 			// the n-byte output is the prefix of the longer one (BLAKE3 XOF): same input
 			if n > 0 && n <= 64 && strings.HasPrefix(impl, "ok ") {
-				long := outcome(func() ([]byte, error) {
-					out := make([]byte, 64)
-					return out, peer.DeriveKey(ctx, salt, k.sk, out)
-				})
+				long, _ := deriveRun(ctx, salt, k.sk, k.priv, 64, false)
 				mon := ""
 				if !strings.HasPrefix(long, impl) {
 					mon = "DeriveKey output depends on the output length beyond truncation"
@@ -331,6 +394,8 @@ func (e *engine) runC13Args(keys []*key, salts [][]byte) {
 				default:
 					if prev, ok := seen[res]; ok && prev != id {
 						mon = "two different (key, context, salt) inputs derive the same Ed25519 key: " + prev + " and " + id
+					} else if seed := specDerive(k, ctx, salt, 32); seed != nil && res != "ok "+lib.Hex(ed25519.NewKeyFromSeed(seed)) {
+						mon = "DeriveEd25519Key is not the Ed25519 key pair of BLAKE3-derive-key(context, const ‖ salt ‖ material⊕context)[:32] (matrix " + id + ")"
 					}
 					seen[res] = id
 				}
